@@ -233,10 +233,13 @@ def Cond.neg : Cond → Cond
   | .and a b => .or (Cond.neg a) (Cond.neg b)
   | .or a b => .and (Cond.neg a) (Cond.neg b)
   | .not c => c
+  | .cmpE op e b l => .cmpE op.negate e b l
+  | .truthE e => .not (.truthE e)
 
 /-- every comparison written from the other side (`a ⋈ b` ↦ `b ⋈' a`) -/
 def Cond.swap : Cond → Cond
   | .cmp op a b => .cmp op.mirror b a
+  | .cmpE op e b l => .cmpE op.mirror e b (!l)
   | .and a b => .and (Cond.swap a) (Cond.swap b)
   | .or a b => .or (Cond.swap a) (Cond.swap b)
   | .not c => .not (Cond.swap c)
@@ -250,6 +253,8 @@ theorem evalCond_neg (L : Layout) (m : SrcSt) (c : Cond) : evalCond L m (Cond.ne
   | and a b iha ihb => simp [Cond.neg, evalCond, iha, ihb]
   | or a b iha ihb => simp [Cond.neg, evalCond, iha, ihb]
   | not c ih => simp [Cond.neg, evalCond]
+  | cmpE op e b l => cases l <;> simp [Cond.neg, evalCond, negate_means_not]
+  | truthE e => simp [Cond.neg, evalCond]
 
 theorem evalCond_swap (L : Layout) (m : SrcSt) (c : Cond) : evalCond L m (Cond.swap c) = evalCond L m c := by
   induction c with
@@ -259,6 +264,8 @@ theorem evalCond_swap (L : Layout) (m : SrcSt) (c : Cond) : evalCond L m (Cond.s
   | and a b iha ihb => simp [Cond.swap, evalCond, iha, ihb]
   | or a b iha ihb => simp [Cond.swap, evalCond, iha, ihb]
   | not c ih => simp [Cond.swap, evalCond, ih]
+  | cmpE op e b l => cases l <;> simp [Cond.swap, evalCond, mirror_means_swap]
+  | truthE e => rfl
 
 /-- De Morgan at the source level: `!(a && b)` ≡ `!a || !b`, `!(a || b)` ≡ `!a && !b` -/
 theorem de_morgan_law (L : Layout) (m : SrcSt) (a b : Cond) :
@@ -707,6 +714,30 @@ theorem tree_assoc_law (L : Layout) (σ : SrcSt) (v : LV) (x y z : GExpr) (op : 
     · exact Or.inr (Or.inl (Or.inr ha))
     · exact Or.inr (Or.inr ha)
   · simp only [pureE]; exact apply_assoc_ne_sub op _ _ _ hop
+
+/-- `(e) << 1` and `(e) + (e)`: different code, the same result (an instance of `tree_equal_value_law`) -/
+theorem shift_is_doubling_law (L : Layout) (σ : SrcSt) (v : LV) (e : GExpr)
+    (h1 : (GExpr.sh e true 1).ok = true) (h2 : (GExpr.bin e .add e).ok = true)
+    (hn : NoTmp L (v.names ++ gexprNames e)) :
+    EqOff L (rspec L σ (.expr v (.sh e true 1))) (rspec L σ (.expr v (.bin e .add e))) := by
+  refine tree_equal_value_law L σ v _ _ h1 h2 (by simpa [gexprNames] using hn) ?_ ?_
+  · refine ⟨hn.1, fun a ha => hn.2 a ?_⟩
+    simp only [gexprNames, List.mem_append] at ha ⊢
+    rcases ha with ha | ha | ha
+    · exact Or.inl ha
+    · exact Or.inr ha
+    · exact Or.inr ha
+  · simp only [pureE, shVal, if_true, BOp.apply]
+    generalize pureE L σ e = x
+    bv_omega
+
+/-- `~(e)` twice is `e` -/
+theorem double_complement_law (L : Layout) (σ : SrcSt) (e : GExpr) :
+    pureE L σ (.bin (.bin e .bxor (.atom (.of (.const 255)))) .bxor (.atom (.of (.const 255)))) = pureE L σ e := by
+  simp only [pureE, BOp.apply, rval, val]
+  generalize pureE L σ e = x
+  rw [BitVec.xor_assoc]
+  simp
 
 /-- the two spellings are different code (the hypotheses of `tree_comm_law` are met by trees that spill differently) -/
 example : rgenText (fun _ => true) (.expr (.var "v") (.bin (.bin (.atom (.of (.var "a"))) .add (.atom (.of (.var "b")))) .bxor
